@@ -54,6 +54,7 @@ pub fn replay(doc: &J) -> i32 {
         "C04" | "C01" if doc["batch"].as_str().unwrap_or("").starts_with("stationar") => crate::driver::replay::<crate::props_stationary::StationaryScenario>(doc),
         "C04" => crate::driver::replay::<crate::props_posterior::PosteriorScenario>(doc),
         "C01" => crate::driver::replay::<crate::props_c01::NutsScenario>(doc),
+        "C02" if doc["batch"].as_str().unwrap_or("").starts_with("real_") => crate::driver::replay::<crate::props_leapfrog_real::RealLeapfrogScenario>(doc),
         "C02" => crate::driver::replay::<crate::props_c01::LeapfrogScenario>(doc),
         other => harness_error(&format!("replay: unknown property {other}")),
     }
@@ -500,6 +501,7 @@ pub fn gen_store(seed: u64, prop: &'static str, backends: &[Backend]) -> StoreSc
         filesystem: false,
         fail_write: None,
         fail_write_from_end: None,
+        crash_every_write: false,
     }
 }
 
@@ -545,6 +547,30 @@ fn c15(tier: Tier, seed: u64) -> i32 {
         let mut r = Prng::sub(rs, "storefault");
         sc.fail_write = Some(r.below(400));
         sc.filesystem = r.chance(0.25);
+        sc
+    });
+    let n6 = ctx.n(160, 12_000);
+    ctx.run_batch("crash_between_store_writes", "sync writer over the in-memory store with a snapshot after EVERY store write (set / erase, metadata included): a process that stops between two store writes - in the middle of a later record_sample, of a later flush, of the warmup->sampling switch or of finalize - must still find every prefix acknowledged by the flushes that had returned before that write (up to 160 crash points per run, evenly strided)", n6, |rs, _| {
+        let mut sc = gen_store(rs, "C15", &[Backend::ZarrSync]);
+        let mut r = Prng::sub(rs, "crashwrite");
+        sc.crash_every_write = true;
+        sc.flush_prob = *r.pick(&[0.15, 0.3, 0.6]);
+        sc.vars.truncate(4);
+        sc
+    });
+    let n7 = ctx.n(80, 3_000);
+    ctx.run_batch("async_crash_between_store_writes", "async writer: the same crash points - a snapshot after every write that reaches the store, in whatever order tokio completes the queued writes (seeded delays) - each must hold the prefixes acknowledged by the flushes that had returned by then", n7, |rs, _| {
+        let mut sc = gen_store(rs, "C15", &[Backend::ZarrAsync]);
+        let mut r = Prng::sub(rs, "asynccrash");
+        sc.crash_every_write = true;
+        sc.flush_prob = *r.pick(&[0.3, 0.6]);
+        let nt = sc.preset.num_tune().min(8);
+        sc.preset.set_num_tune(nt);
+        fix_early_window(&mut sc.preset, nt);
+        let nd = sc.preset.num_draws().min(8);
+        sc.preset.set_num_draws(nd);
+        sc.chunk_size = *r.pick(&[2u64, 3, 4, 5]);
+        sc.vars.truncate(3);
         sc
     });
     let n3 = ctx.n(250, 2_500);
@@ -806,8 +832,10 @@ fn c07(tier: Tier, seed: u64) -> i32 {
                 }
             }
             2 | 3 => {
+                // density faults of every kind at random evaluations: each is a divergence with acceptance 0
                 for _ in 0..r.range(1, 10) {
-                    cfg.faults.push(crate::density::Fault { at: r.below(1500), kind: crate::density::FaultKind::RecoverableErr });
+                    let kind = *r.pick(&[crate::density::FaultKind::RecoverableErr, crate::density::FaultKind::RecoverableErr, crate::density::FaultKind::NanLogp, crate::density::FaultKind::InfGrad, crate::density::FaultKind::EnergyJump, crate::density::FaultKind::PosInfLogp]);
+                    cfg.faults.push(crate::density::Fault { at: r.below(1500), kind });
                 }
             }
             _ => {}
@@ -1049,6 +1077,25 @@ fn c02(tier: Tier, seed: u64) -> i32 {
     let mut ctx = Ctx::new("C02", tier, seed);
     let n = ctx.n(20000, 600_000);
     ctx.run_batch("leapfrog_sequences", "sequences of 2..8 single leapfrog steps (both signs) of the real Hamiltonian::leapfrog from a scripted momentum, for explicit diagonal / low-rank transformations (dimension 1..64, rank 0..d), Euclidean and ExactNormal kinetic energy; every visited state (trajectory tap) is compared with a dense-matrix reference: x = F(y) + mu (inverse consistent with forward map), gradient pull-back F^T grad, documented log-determinant, energy = 1/2|v|^2 - logp - logdet, each step = textbook leapfrog in the original space for M^-1 = F F^T (ExactNormal: residual kick / rotation / kick), forward+backward returns the start, ExactNormal conserves the energy on a standard normal", n, |rs, _| gen_leapfrog_scenario(rs));
+    let n2 = ctx.n(6000, 300_000);
+    let opts = SwarmOpts { allow_tune0: true, max_tune: 40, max_draws: 10, max_dim: 6, ..Default::default() };
+    ctx.run_batch("real_runs", "real chains of all six presets (adaptation on, natural and injected divergences, recoverable errors, energy jumps; MCLMC with dynamic step-size retries and a momentum decoherence length of 1e300 with the subsample frequency scaled to keep the trajectory length, i.e. a partial refresh below rounding): every state the integrator produced inside set_position and every draw (trajectory tap) must be the half-kick / drift / half-kick image - with the ONE step size reported for that leapfrog - of an earlier state of its trajectory (Euclidean, ExactNormal and closed-form ESH formulas in whitened coordinates), and all states of a trajectory, the start state included, must be related to their whitened coordinates by one affine map ((x_k - x_0).g_x,m = (y_k - y_0).g_y,m) with one log-determinant; non-trivial = a draw with at least two leapfrogs", n2, |rs, _| {
+        let mut cfg = gen_chain_cfg(rs, &opts);
+        let mut r = Prng::sub(rs, "tweak");
+        match &mut cfg.preset {
+            crate::chain::Preset::DiagMclmc(s) => { let f = s.subsample_frequency * s.momentum_decoherence_length; s.momentum_decoherence_length = 1e300; s.subsample_frequency = f * 1e-300; if r.chance(0.7) { s.dynamic_step_size = true; } }
+            crate::chain::Preset::LowRankMclmc(s) => { let f = s.subsample_frequency * s.momentum_decoherence_length; s.momentum_decoherence_length = 1e300; s.subsample_frequency = f * 1e-300; if r.chance(0.7) { s.dynamic_step_size = true; } }
+            crate::chain::Preset::FlowMclmc(s) => { let f = s.subsample_frequency * s.momentum_decoherence_length; s.momentum_decoherence_length = 1e300; s.subsample_frequency = f * 1e-300; if r.chance(0.7) { s.dynamic_step_size = true; } }
+            _ => {}
+        }
+        if r.chance(0.6) {
+            for _ in 0..r.range(1, 6) {
+                let kind = *r.pick(&[crate::density::FaultKind::RecoverableErr, crate::density::FaultKind::NanLogp, crate::density::FaultKind::EnergyJump, crate::density::FaultKind::InfGrad]);
+                cfg.faults.push(crate::density::Fault { at: r.below(400), kind });
+            }
+        }
+        crate::props_leapfrog_real::RealLeapfrogScenario { cfg }
+    });
     ctx.finish("exploration", components_direct_drive(), vec![
         "weak fit for the family (pure function of its inputs except the re-derivation of whitened coordinates after a transformation change, which C03's next-trajectory oracle covers in adaptive chains); the simulator contributes the scripted momentum and the tap".into(),
         "volume preservation and the O(eps^2) order follow from equality with the textbook map and are not measured".into(),
